@@ -127,6 +127,8 @@ def _solve(smt2):
 
 def run_contracts(report: Report, specs, workers=16):
     """specs: list of (module, class_name, oid). Adds one Ob per (contract, obligation name)."""
+    from . import canary
+    canary.run()      # the engine must refute a wrong contract and discharge a right one before its verdicts are used
     serial = bool(os.environ.get("VERIF_SERIAL"))
     pool = None if serial else ProcessPoolExecutor(max_workers=workers)
     try:
